@@ -28,11 +28,11 @@ MC = {
             mc("Pfs", "MC_Pfs_quick", "MC_Pfs"), mc("MC_BitVecLines", "MC_BitVecLines", "MC_BitVecLines_thorough")],
     "C05": [mc("QLine", "MC_QLine", workers=4), mc("RSQ", "MC_RSQ_bs2_quick", "MC_RSQ_bs2_deep"), mc("RSQ", "MC_RSQ_bs4_quick", "MC_RSQ_bs4_deep"), mc("RSQ", "MC_RSQ_bps4", tiers=("thorough",))],
     "C06": [mc("BLine", "MC_BLine", workers=4), mc("RSBin", "MC_RSBin_narrow_quick", "MC_RSBin_narrow_deep"), mc("RSBin", "MC_RSBin_wide_quick", "MC_RSBin_wide_deep")],
-    "C07": [mc("DArr", "MC_DArr_quick", "MC_DArr_deep")],
+    "C07": [mc("DArr", "MC_DArr_quick", "MC_DArr_deep"), mc("PosIter", "MC_PosIter", workers=6)],
     "C08": [mc("MC_LibBV", "MC_LibBV", "MC_LibBV_deep"), mc("MC_BitVecLines", "MC_BitVecLines", "MC_BitVecLines_thorough")],
     "C09": [mc("Pfs", "MC_Pfs_quick", "MC_Pfs"), mc("Pfs", "MC_Pfs_r4", tiers=("thorough",))],
-    "C12": [mc("MC_LibIt", "MC_LibIt")],
-    "C13": [mc("MC_QVec", "MC_QVec"), mc("QLine", "MC_QLine", workers=4)],
+    "C12": [mc("MC_LibIt", "MC_LibIt"), mc("PosIter", "MC_PosIter", workers=6)],
+    "C13": [mc("MC_LibQB", "MC_LibQB"), mc("MC_QVec", "MC_QVec"), mc("QLine", "MC_QLine", workers=4)],
     "C15": [mc("HuffWM", "MC_HuffWM_k4_quick", "MC_HuffWM_k4"), mc("HuffWM", "MC_HuffWM_k2_quick", "MC_HuffWM_k2")],
     "C17": [mc("Words", "MC_Words", workers=6)],
     "C18": [mc("MC_Conc", "MC_Conc_none", workers=4), mc("MC_Conc", "MC_Conc_atomic_pair", workers=4), mc("MC_Conc", "MC_Conc_torn_single", workers=4)],
@@ -57,7 +57,7 @@ PLAN = {
     "C11": {"level": "model_checking", "campaigns": [camp("c11", C.camp_c11, {"quick": ["opt"], "thorough": ["opt", "chk"]})]},
     "C12": {"level": "model_checking",
             "campaigns": [{"name": "c12tlc", "tlcgen": "it", "tags": Q}, camp("c12", C.camp_c12)]},
-    "C13": {"level": "model_checking", "campaigns": [camp("c13", C.camp_c13)]},
+    "C13": {"level": "model_checking", "campaigns": [{"name": "c13tlc", "tlcgen": "qb", "tags": Q}, camp("c13", C.camp_c13)]},
     "C19": {"level": "model_checking", "campaigns": [camp("c19", C.camp_c19)]},
     "C14": {"level": "model_checking", "campaigns": [camp("c14", C.camp_c14, {"quick": ["opt"], "thorough": ["opt"]})]},
     "C15": {"level": "model_checking", "campaigns": [camp("c15", C.camp_c15, {"quick": ["opt"], "thorough": ["opt"]})]},
@@ -97,7 +97,7 @@ TEXTS.update({
     "C10": _t("Unchecked methods are called only where the specification's precondition holds (TLC re-checks it) and must equal the checked twin, in the optimized build and in the build with debug assertions and overflow checks.", _TV + "; relation unchecked = checked on spec-legal arguments in two build profiles"),
     "C11": _t("bincode round trip of every serializable kind: success, equality, and identical answers of original and copy on full query grids, judged by TLC.", _TV),
     "C12": _t("Every call word over {next, next_back, len} up to |S|+2 (quick) / |S|+3 (thorough) on every tree kind, forward histories on bit/quad/position iterators including calls after exhaustion; TLC folds the specification's iterator step function over each word.", _TV + "; exhaustive call words on small sequences"),
-    "C13": _t("QVectorBuilder push/extend histories and collection from all twelve integer types with negative and large values; TLC computes v mod 4 in two's complement from the logged values.", _TV),
+    "C13": _t("Every QVectorBuilder push/extend history of length 2 (quick) / 3 (thorough) over the argument sets of Gen_qb_*.cfg is enumerated by TLC from the LibQB state machine and replayed on the real builder; random longer histories and collection from all twelve integer types with negative and large values; TLC computes v mod 4 in two's complement from the logged values; iteration through next and the skipping calls nth(1)/nth(3).", _TV + "; TLC-enumerated builder histories (LibQB.tla) replayed on the implementation"),
     "C19": _t("Every construction path, clone, rebuild-from-iterator and wider carrier type of the same input must answer identically and (non-Huffman) compare equal; one-element edits must compare unequal.", _TV),
 })
 for _p in list(NOT_APPLICABLE):
